@@ -294,8 +294,6 @@ class CSSImportRule(cssrule.CSSRule):
                 # use cwd instead
                 parentHref = cssutils.helper.path2url(os.getcwd()) + '/'
 
-            fullhref = urllib.parse.urljoin(parentHref, self.href)
-
             # hrefs of the sheets this rule is (indirectly) imported by
             importing = []
             sheet = self.parentStyleSheet
@@ -305,6 +303,9 @@ class CSSImportRule(cssrule.CSSRule):
 
             # all possible exceptions are ignored
             try:
+                # ValueError e.g. for "http://[x"
+                fullhref = urllib.parse.urljoin(parentHref, self.href)
+
                 if fullhref in importing:
                     # catched in next except below!
                     raise OSError('Cyclic @import.')
